@@ -12,6 +12,7 @@ import (
 
 	. "github.com/apmckinlay/gsuneido/core"
 	"github.com/apmckinlay/gsuneido/db19"
+	"github.com/apmckinlay/gsuneido/util/dnum"
 	vk "github.com/apmckinlay/gsuneido/util/verifkit"
 )
 
@@ -267,6 +268,79 @@ func vfDiff(a, b []vfRow, cols []string) (onlyA, onlyB []string) {
 	return
 }
 
+// vfDiffOnlyRoundingOrder reports whether the two row multisets differ only in numbers that agree to 13 significant
+// digits: total and average add 16-digit decimals, which is not associative once a quotient (an average) is among the
+// operands, so the last digits depend on the order in which a strategy delivers the rows. Rows are paired greedily
+// after the exact matches have been removed.
+func vfDiffOnlyRoundingOrder(a, b []vfRow, cols []string) bool {
+	if len(a) != len(b) {
+		return false
+	}
+	cnt := map[string]int{}
+	for _, r := range a {
+		cnt[vfRowKey(r, cols)]++
+	}
+	var restB []vfRow
+	for _, r := range b {
+		if k := vfRowKey(r, cols); cnt[k] > 0 {
+			cnt[k]--
+		} else {
+			restB = append(restB, r)
+		}
+	}
+	var restA []vfRow
+	for _, r := range a {
+		if k := vfRowKey(r, cols); cnt[k] > 0 {
+			cnt[k]--
+			restA = append(restA, r)
+		}
+	}
+	if len(restA) != len(restB) || len(restA) == 0 {
+		return false
+	}
+	closeVal := func(x, y Value) bool {
+		if x.Equal(y) {
+			return true
+		}
+		dx, ok1 := x.(SuDnum)
+		dy, ok2 := y.(SuDnum)
+		if !ok1 || !ok2 || dx.IsInf() || dy.IsInf() {
+			return false
+		}
+		diff := dnum.Sub(dx.Dnum, dy.Dnum).Abs()
+		big := dx.Dnum.Abs()
+		if dnum.Compare(dy.Dnum.Abs(), big) > 0 {
+			big = dy.Dnum.Abs()
+		}
+		return dnum.Compare(diff, dnum.Mul(big, dnum.FromStr("1e-13"))) <= 0
+	}
+	get := func(r vfRow, c string) Value {
+		if v, ok := r[c]; ok && v != nil {
+			return v
+		}
+		return EmptyStr
+	}
+	used := make([]bool, len(restB))
+outer:
+	for _, ra := range restA {
+	next:
+		for j, rb := range restB {
+			if used[j] {
+				continue
+			}
+			for _, c := range cols {
+				if !closeVal(get(ra, c), get(rb, c)) {
+					continue next
+				}
+			}
+			used[j] = true
+			continue outer
+		}
+		return false
+	}
+	return true
+}
+
 func vfSameSet(a, b []string) bool {
 	if len(a) != len(b) {
 		return false
@@ -303,6 +377,26 @@ func vfModelResult2(d *vfDB, root *vfNode, raw bool) (rel *vfRel, open, packDisa
 	}()
 	rel = m.eval(root)
 	return rel, m.ev.open, m.ev.packDisagree, false
+}
+
+// vfMatchesWhereBeforeRecordSummarize is the probe for the recorded finding "where conjunct applied before a summarize
+// that returns the record": it reports whether the engine's rows are exactly what the query gives when a where directly
+// over a by-less min/max summarize has its non-aggregate conjuncts applied to the source first (and whether that
+// reading differs from the query as written at all is implied by the mismatch that led here).
+func vfMatchesWhereBeforeRecordSummarize(d *vfDB, root *vfNode, rows []vfRow, cols []string) (matches bool) {
+	m := vfNewModel(d, false)
+	m.whereBeforeWholeRow = true
+	defer func() {
+		if e := recover(); e != nil {
+			matches = false
+		}
+	}()
+	rel := m.eval(root)
+	if m.usedAlt == 0 || !vfSameSet(rel.cols, cols) {
+		return false
+	}
+	a, b := vfDiff(rel.rows, rows, cols)
+	return len(a)+len(b) == 0
 }
 
 // vfPanicSite names an engine failure: normalized message @ innermost repository function
